@@ -1,7 +1,7 @@
 #!/bin/bash
 # mutcheck.sh <repo-copy> <PROP>... : run quick checks against a scratch copy of the repo without touching /verif/evidence or /verif/replays
 R=$1; shift
-export VERIF_REPO=$R VERIF_EVID=/tmp/mutcheck-evid VERIF_REPLAYS=/tmp/mutcheck-replays
+export VERIF_REPO=$R VERIF_EVID=/tmp/mutcheck-evid VERIF_REPLAYS=/tmp/mutcheck-replays VERIF_BUILD=/tmp/mutcheck-build
 mkdir -p $VERIF_EVID $VERIF_REPLAYS
 for p in "$@"; do
   /verif/check $p quick 2>&1 | grep -E "^\[C|VIOLATION|HARNESS" | cut -c1-330
